@@ -1254,7 +1254,7 @@ class M_run_switch(CoroBase):
             out.append(('unmatched-label-runs-no-case|C09', not runs))
             return out
         ok = len(runs) == 1
-        out.append(('runs-exactly-one-sub-pipeline|C09', ok))
+        out.append(('runs-exactly-one-sub-pipeline|C09,C01,C11', ok))
         if not ok:
             return out
         r = runs[0]
